@@ -530,7 +530,7 @@ def r18_7(ctx):
                     wrong.append((v, sorted(names)))
             ctx.check(not wrong, fn.fq, f"type={short(t)}", f"{cm.relpath}:{n.lineno}", f"numbers 0..{nstd - 1} -> STANDARD, {nstd}..255 -> EIGHT_BIT",
                       f"colour number classification differs from the 16-entry standard palette at n={wrong[:3]}: the same number gets a different type (and compares unequal / indexes the wrong palette) depending on how the colour was built")
-    ctx.floor(sites, 3, "numbered Color construction sites")
+    ctx.floor(sites, 1, "numbered Color construction sites")
 
 
 def r18_6(ctx):
